@@ -1386,7 +1386,7 @@ struct RrsetProof {
 #[derive(Clone)]
 #[allow(clippy::type_complexity)]
 struct ValidationCache {
-    inner: Arc<Mutex<LruCache<ValidationCacheKey, (Instant, Result<RrsetProof, ProofError>)>>>,
+    inner: Arc<Mutex<LruCache<ValidationCacheKey, CachedValidation>>>,
     negative_ttl: Option<RangeInclusive<Duration>>,
     positive_ttl: Option<RangeInclusive<Duration>>,
 }
@@ -1405,23 +1405,50 @@ impl ValidationCache {
         key: &ValidationCacheKey,
         context: &RrsetVerificationContext<'_>,
     ) -> Option<Result<RrsetProof, ProofError>> {
-        let (ttl, cached) = self.inner.lock().get_mut(key)?.clone();
+        let CachedValidation {
+            expires,
+            signature_span,
+            mut result,
+        } = self.inner.lock().get_mut(key)?.clone();
 
-        if Instant::now() < ttl {
-            debug!(
-                name = ?context.key.name,
-                record_type = ?context.key.record_type,
-                "returning cached DNSSEC validation",
-            );
-            Some(cached)
-        } else {
+        if Instant::now() >= expires {
             debug!(
                 name = ?context.key.name,
                 record_type = ?context.key.record_type,
                 "cached DNSSEC validation expired"
             );
-            None
+            return None;
         }
+
+        // A Secure verdict rests on a signature that was inside its validity period when it was
+        // checked, and stays so for `lifetime` more seconds of the validator's clock. Beyond that
+        // span (or if the clock has been set back) the RRSIG has to be checked again; within it,
+        // the TTL must not exceed what is left of the signature (RFC 4035 section 5.3.3).
+        if let Some((validated_at, lifetime)) = signature_span {
+            let elapsed = context.current_time.wrapping_sub(validated_at);
+            if elapsed > lifetime {
+                debug!(
+                    name = ?context.key.name,
+                    record_type = ?context.key.record_type,
+                    "cached DNSSEC validation outlived its signature"
+                );
+                return None;
+            }
+            if let Ok(RrsetProof {
+                adjusted_ttl: Some(adjusted_ttl),
+                ..
+            }) = &mut result
+            {
+                *adjusted_ttl = (*adjusted_ttl).min(lifetime - elapsed);
+            }
+        }
+
+        debug!(
+            name = ?context.key.name,
+            record_type = ?context.key.record_type,
+            "returning cached DNSSEC validation",
+        );
+        Some(result)
     }
 
     fn insert(
@@ -1454,14 +1481,46 @@ impl ValidationCache {
             return;
         };
 
+        // For a Secure verdict, remember when (validator clock) the signature was checked and how
+        // long it remains valid from then on, in the arithmetic of `RRSIG::authenticated_ttl()`.
+        let signature_span = match &proof {
+            Ok(RrsetProof {
+                proof: Proof::Secure,
+                rrsig_index: Some(rrsig_index),
+                ..
+            }) => cx
+                .rrset
+                .signatures
+                .get(*rrsig_index)
+                .and_then(|rrsig| rrsig.try_borrow::<RRSIG>())
+                .map(|rrsig| {
+                    let expiration = rrsig.data().input().sig_expiration.get();
+                    (cx.current_time, expiration.saturating_sub(cx.current_time))
+                }),
+            _ => None,
+        };
+
         self.inner.lock().insert(
             key,
-            (
-                Instant::now() + Duration::from_secs(first_record.ttl.into()).clamp(min, max),
-                proof.clone(),
-            ),
+            CachedValidation {
+                expires: Instant::now()
+                    + Duration::from_secs(first_record.ttl.into()).clamp(min, max),
+                signature_span,
+                result: proof,
+            },
         );
     }
+}
+
+/// An entry of the [`ValidationCache`].
+#[derive(Clone)]
+struct CachedValidation {
+    /// The entry is not served from this instant on.
+    expires: Instant,
+    /// For a Secure verdict backed by an RRSIG: the validator's time at which the signature was
+    /// checked, and the number of seconds it remained valid from then on.
+    signature_span: Option<(u32, u32)>,
+    result: Result<RrsetProof, ProofError>,
 }
 
 /// A collection of RRsets, with mutable access to the underlying records.
